@@ -21,6 +21,8 @@ type onceState struct {
 	mu   mutexState
 }
 
+type poolState struct{ items []Value }
+
 type condWaiter struct {
 	g        *Goroutine
 	signaled bool
@@ -221,6 +223,55 @@ func init() {
 		}
 		ex.unlockOp(fr, &o.mu, true)
 		return nil
+	})
+
+	// ---- sync.Pool: Put keeps the item; Get hands out a kept item or (the pool may drop items at
+	// any time) falls back to New - a choice point when both are possible. Last field of the
+	// struct is New.
+	reg("(*sync.Pool).Put", func(fr *frame, args []Value) Value {
+		ex := fr.ex
+		a := args[0].(*Value)
+		ps, _ := ex.syncObjs[a].(*poolState)
+		if ps == nil {
+			ps = &poolState{}
+			ex.syncObjs[a] = ps
+		}
+		g := fr.gor()
+		ex.rt.visible(g, &pendingOp{kind: opAtomic, obj: ps})
+		g.pending = nil
+		if iv, ok := args[1].(Iface); ok && iv.T != nil {
+			ps.items = append(ps.items, iv)
+		}
+		return nil
+	})
+	reg("(*sync.Pool).Get", func(fr *frame, args []Value) Value {
+		ex := fr.ex
+		a := args[0].(*Value)
+		ps, _ := ex.syncObjs[a].(*poolState)
+		if ps == nil {
+			ps = &poolState{}
+			ex.syncObjs[a] = ps
+		}
+		g := fr.gor()
+		ex.rt.visible(g, &pendingOp{kind: opAtomic, obj: ps})
+		g.pending = nil
+		st := (*a).(Struct)
+		newFn := st[len(st)-1]
+		if len(ps.items) > 0 {
+			pick := 0
+			if !isNilValue(newFn) {
+				pick = ex.choose("pool", []int{0, 1})
+			}
+			if pick == 0 {
+				it := ps.items[len(ps.items)-1]
+				ps.items = ps.items[:len(ps.items)-1]
+				return it
+			}
+		}
+		if isNilValue(newFn) {
+			return Iface{}
+		}
+		return ex.callValue(fr, newFn, nil)
 	})
 
 	// sync.Cond: struct{noCopy; L Locker; notify; checker}
